@@ -5,7 +5,9 @@ package rules
 // Files: c14.go (entry, role resolution, R-C14-4 who-may-mutate/locks, R-C14-5 QoS provenance),
 // c14_find.go (R-C14-1 matcher transition table), c14_gate.go (R-C14-2 validation gate,
 // R-C14-3 pruning guard), c14_batch.go (R-C14-6 batch consistency trie <-> session),
-// c14_split.go (R-C14-7 wildcard placement in splitTopic; added for seeded regression C14/b).
+// c14_split.go (R-C14-7 wildcard placement in splitTopic; added for seeded regression C14/b),
+// c14_session.go (R-C14-8 session record persisted; added for round-2 change C14/a); round-2 change
+// C14/b is decided by the extra R-C14-5 obligation "qos recorded on every successful path".
 //
 // Everything is resolved by role: the trie fields by their *types.Var (topicNode.clients,
 // topicNode.nodes, TopicManager.root, topicLevelManager.data), the level source by callee
@@ -81,6 +83,14 @@ package rules
 //   `!(len <= 1)`, operands swapped; SP3 flag saved in a local, reset first; SP4 check on the temp
 //   variable after the cursor advanced; SP5 switch with fallthrough; SP6 append instead of indexed store
 //
+// Round 2 (overlay driver out/mut3.py):
+//   R-C14-8: seeded a (unsubscribe lost store in a defer-unlock refactor); A2 subscribe loses store; A3 store
+//   before the deletes; A4 store only for multi-filter batches; A5 early return between delete and store -> all exit 1.
+//   Preserving, exit 0: AP1 `defer s.store()`; AP2 defer unlock + early return on empty batch; AP3 store via a helper.
+//   R-C14-5 |qos recorded on every successful path: seeded b (store only if qos > cur); B1 never overwrite;
+//   B2 skip qos 0; B3 early return keeps the larger -> all exit 1. Preserving, exit 0: BP1/BP2 store skipped
+//   only when the recorded qos equals the requested one.
+//
 // GENUINE DEFECTS found on the tree of the first pass (since fixed in /repo: 8fc741a, 90acb3c; demo out/zz_triage_test.go):
 //   R-C14-6 |(TopicManager).subscribe|all-or-nothing            — out/fix-1.diff
 //   R-C14-6 |(TopicManager).unsubscribe|every filter processed  — out/fix-2.diff
@@ -117,9 +127,10 @@ func c14(c *core.Ctx) string {
 	c.Rule("R-C14-2", "validation gate: insert/remove/findSubscribers take their levels from the level source (getLevels -> topicLevelManager.get) and index child maps only by elements of that slice or constants; insert reports the source's error (unless every call site validated the batch first); the level cache is filled only with splits splitTopic declared valid, under the key that was split, and get returns a nil error only for a cache hit or a valid split")
 	c.Rule("R-C14-3", "pruning guard: delete(parent.nodes, level) is reachable only when the child stored under exactly that key has len(clients)==0 and len(nodes)==0; remove deletes the caller's client id from the clients map and nothing else")
 	c.Rule("R-C14-4", "lock discipline: every store into topicNode.clients/nodes is executed with the manager's write lock held, every other access (field selection, collector call) with the read or write lock held — taken in the accessing function or held at all of its call sites (helpers, depth <= 3); locks are released at every exit; the maps do not escape through aliases; node literals create fresh maps; TopicManager.root is never reassigned")
-	c.Rule("R-C14-5", "QoS provenance: the only stores into the result map copy (client, qos) pairs ranged from some node's clients map; insert stores the caller's qos under the caller's client id; subscribe pairs filter i with qoss[i]")
+	c.Rule("R-C14-5", "QoS provenance: the only stores into the result map copy (client, qos) pairs ranged from some node's clients map; insert stores the caller's qos under the caller's client id on every successful path (it may be skipped only when the recorded qos is known to equal the requested one); subscribe pairs filter i with qoss[i]")
 	c.Rule("R-C14-6", "batch consistency between trie and session: the SUBSCRIBE handler records/acknowledges a batch only if TopicManager.subscribe succeeded; subscribe returns a non-nil error whenever a filter of the batch was found malformed, and is all-or-nothing (no error return after an insert succeeded unless the whole batch was validated first); the UNSUBSCRIBE/disconnect/session-discard paths forget the whole batch whatever unsubscribe returns, so unsubscribe must process every filter of the batch (no exit before the removal loop is exhausted) — if the callers are changed to gate on the error, the contract checked becomes all-or-nothing instead")
 	c.Rule("R-C14-7", "wildcard placement in splitTopic: an iteration that knows the character to be '+' or '#' ends with the wildcard flag raised; whenever a level is closed (stored into the result slice) with the flag raised, the length of that very level — the stored value or its slot, read before any variable it is spelled with is reassigned — is tested to be <= 1 before the topic can be accepted")
+	c.Rule("R-C14-8", "session record persisted: every function that changes an element of SessionInfo.Topics calls Session.store (directly, deferred or through an in-package helper) on every path between the last change and its return")
 	c.NotDecided = []string{
 		"correctness of the trie as a whole over arbitrary histories (walk of insert/remove reaching the right node is not decided; the matcher is decided per level, whole-topic correctness follows by induction argued in DESIGN, not machine-checked)",
 		"the rest of splitTopic's character automaton: '#' only as the last character (cursor arithmetic), over-rejection of valid filters (flag not reset), the empty filter — value semantics; R-C14-7 decides only that a wildcard level's own length is tested",
@@ -152,6 +163,7 @@ func c14(c *core.Ctx) string {
 	c14Mutators(e)
 	c14QoS(e)
 	c14Split(e)
+	c14Session(e)
 	return "Static shape rules on the MQTT topic trie: the per-level decision of findSubscribers is extracted path-sensitively and compared with the MQTT 3.1.1 table ('#' collects and stops, '+'/equal descend, parent-level '#' after the last level); validation gates, the pruning guard, lock discipline / write sites, QoS provenance, and the all-or-nothing / process-everything contracts of the batch operations the SUBSCRIBE, UNSUBSCRIBE and disconnect paths rely on. Not decided: the trie over whole histories, splitTopic's automaton, pruning order, LRU eviction."
 }
 
@@ -1026,6 +1038,7 @@ func c14QoS(e *c14env) {
 			}
 		}
 		c.RequireCount("R-C14-5", "clients stores in insert", n, 1)
+		c14InsertAlways(e, f, cons)
 	}
 
 	// subscribe: insert(topics[i], qoss[i], client)
@@ -1076,4 +1089,85 @@ func c14QoS(e *c14env) {
 			c.Check(ok, "R-C14-5", cons+"|QoS paired with its filter", pos(c, call), "insert(topics[i], qoss[i], client) inside the loop over topics", why)
 		}
 	}
+}
+
+// c14InsertAlways: every exit of insert that reports success has executed the store
+// clients[client] = qos (re-subscription replaces the recorded QoS: session and SUBACK report the
+// requested one). The store may be skipped only in a state that knows the recorded value equals
+// the qos parameter.
+func c14InsertAlways(e *c14env, f *flow.Func, cons string) {
+	c := e.c
+	const ev = "ev:c14:qosStored"
+	stores := map[ast.Node]bool{}
+	for _, w := range e.trieWrites(f, f.Body) {
+		if as, ok := w.at.(*ast.AssignStmt); ok && w.field == e.clientsF {
+			stores[as] = true
+		}
+	}
+	// variables holding the currently recorded qos: v[, ok] := X.clients[<param>]
+	var qosParams []types.Object
+	for _, p := range c14params(f) {
+		if b, ok := p.Type().Underlying().(*types.Basic); ok && b.Info()&types.IsInteger != 0 {
+			qosParams = append(qosParams, p)
+		}
+	}
+	var curVars []types.Object
+	ast.Inspect(f.Body, func(n ast.Node) bool {
+		if as, ok := n.(*ast.AssignStmt); ok && len(as.Rhs) == 1 {
+			if ix, ok := ast.Unparen(as.Rhs[0]).(*ast.IndexExpr); ok {
+				if _, isC := c14fieldRecv(f, ix.X, e.clientsF); isC && c14isParam(f, c14obj(f, ix.Index)) {
+					if o := c14obj(f, as.Lhs[0]); o != nil {
+						curVars = append(curVars, o)
+					}
+				}
+			}
+		}
+		return true
+	})
+	res := analyze(c, f, flow.Config{NoHavoc: true, OnNode: func(st *flow.State, n ast.Node) {
+		if stores[n] {
+			st.Set(ev, flow.True)
+		}
+	}})
+	if res == nil {
+		return
+	}
+	sameKnown := func(st *flow.State) bool {
+		for _, v := range curVars {
+			for _, q := range qosParams {
+				a, b := c14varRender(f, v), c14varRender(f, q)
+				if b < a {
+					a, b = b, a
+				}
+				if st.Is("eq:"+a+"=="+b, flow.True) {
+					return true
+				}
+			}
+		}
+		return false
+	}
+	var bad *flow.Exit
+	n := 0
+	for _, ex := range res.Exits {
+		if ex.Kind != flow.ExitReturn || ex.Return == nil || len(ex.Return.Results) == 0 {
+			continue
+		}
+		last := ex.Return.Results[len(ex.Return.Results)-1]
+		if nn, ok := c14nonNilErr(f, ex.State, last); !ok || nn {
+			continue // error exit (or unclassified): R-C14-2
+		}
+		n++
+		if !ex.State.Is(ev, flow.True) && !sameKnown(ex.State) {
+			bad = ex
+		}
+	}
+	c.RequireCount("R-C14-5", "success exits of insert", n, 1)
+	c.Check(bad == nil, "R-C14-5", cons+"|qos recorded on every successful path", pos(c, f.Body),
+		sprintf("%d abstract success exits, all after clients[client] = qos (or with the recorded qos known equal)", n),
+		"insert can report success without recording the requested qos (the store is conditional): a re-subscription with another QoS keeps the old QoS in the trie while the session and the SUBACK report the new one — messages are routed with a QoS that is not the client's current subscription", func() []string {
+			if bad == nil {
+				return nil
+			}
+			return append([]string{"return at " + pos(c, bad.Return)}, witness(bad.State)...)
+		}()...)
 }
